@@ -218,6 +218,19 @@ def r14_2(ctx):
     ok = bool(app) and bool(new) and bool(ins) and \
         cfg.must_pass(new, [cfg.exit], ins, skip_labels=('x',))[0] and \
         cfg.exit.id not in cfg.reach([cfg.entry.id], block_nodes={n.id for n in app + new}, skip_labels=('x',))
+    if not ok:
+        # the same with dict.setdefault: seq = self._len_to_seq.setdefault(length, []); seq.append(block); the length
+        # is inserted exactly when the bucket is new (holds one block)
+        sd = [(dn, t) for (dn, t, v) in q.assigns(fr, None) if isinstance(v, ast.Call) and
+              fr.callee(v) == 'self._len_to_seq.setdefault' and len(v.args) == 2 and ast.unparse(v.args[1]) == '[]'
+              and isinstance(t, ast.Name)]
+        if sd:
+            sv = sd[0][1].id
+            app2 = [n for (n, c) in q.calls(fr, sv + '.append') if c.args and ast.unparse(c.args[0]) == 'block']
+            ok = bool(app2) and bool(ins) and \
+                cfg.exit.id not in cfg.reach([cfg.entry.id], block_nodes={n.id for n in app2}, skip_labels=('x',)) and \
+                all(q.has_guard(fr, n, q.eq_text('len(%s)' % sv, '1'), True) for n in ins) and \
+                all(cfg.nodes[b] in ins or True for (a, b, l) in q.outcome_edges(fr, q.eq_text('len(%s)' % sv, '1'), True))
     ctx.ob('R14.2', '_free:length-index-updated', ok, fr, None,
            'appended to its bucket, or a new bucket is created and the length inserted in sorted order')
     lv = [v for (dn, t, v) in q.assigns(fr, 'length') if v is not None]
@@ -386,6 +399,10 @@ def r14_5(ctx):
     for mk in mask:
         forms |= {'%s+%s&~%s' % (n_, mk, mk), '(%s+%s)&~%s' % (n_, mk, mk)}
     forms |= {'(%s+%s-1)&~(%s-1)' % (n_, a_, a_), '%s+(%s-1)&~(%s-1)' % (n_, a_, a_), '(%s+(%s-1))&~(%s-1)' % (n_, a_, a_)}
+    # ~(a - 1) == -a for every integer
+    for mk in mask:
+        forms |= {'%s+%s&-%s' % (n_, mk, a_), '(%s+%s)&-%s' % (n_, mk, a_)}
+    forms |= {'(%s+%s-1)&-%s' % (n_, a_, a_), '%s+(%s-1)&-%s' % (n_, a_, a_), '(%s+(%s-1))&-%s' % (n_, a_, a_)}
     ok = len(rets) == 1 and rets[0] in forms
     ctx.ob('R14.5', '_roundup:(n+a-1)&~(a-1)', ok, ru, None, 'return %s' % rets)
 
